@@ -616,21 +616,29 @@ def _dispatch_log_or_error(
             wire_batch_logger.debug("Classify batch: zero-row, no log keys -> data")
         return False
 
-    level_str = level_bytes.decode()
-    message_str = message_bytes.decode()
+    # Everything below is chosen by the peer.  A log batch is advisory: whatever
+    # it carries, it is delivered as faithfully as it can be or dropped — it must
+    # never fail the call it rides on.  So decode leniently, and treat a
+    # ``log_extra`` that is not a JSON object as absent.
+    level_str = level_bytes.decode(errors="replace")
+    message_str = message_bytes.decode(errors="replace")
 
     # Extract extra info (traceback, exception_type, etc.)
     raw_extra_data: dict[str, object] = {}
     raw_extra = custom_metadata.get(LOG_EXTRA_KEY)
     if raw_extra is not None:
-        with contextlib.suppress(json.JSONDecodeError):
-            raw_extra_data = json.loads(raw_extra.decode())
+        # ValueError covers JSONDecodeError, UnicodeDecodeError and the int
+        # digit limit; RecursionError a pathologically nested document.
+        with contextlib.suppress(ValueError, RecursionError):
+            parsed_extra = json.loads(raw_extra.decode())
+            if isinstance(parsed_extra, dict):
+                raw_extra_data = parsed_extra
 
     # Extract request_id from batch metadata
     request_id_bytes = custom_metadata.get(REQUEST_ID_KEY)
     request_id = ""
     if request_id_bytes is not None:
-        request_id = request_id_bytes.decode()
+        request_id = request_id_bytes.decode(errors="replace")
 
     if wire_batch_logger.isEnabledFor(logging.DEBUG):
         wire_batch_logger.debug(
@@ -656,15 +664,28 @@ def _dispatch_log_or_error(
         raise RpcError(error_type, message_str, traceback_str, request_id=request_id, error_kind=error_kind)
 
     # Non-exception log message → invoke callback
-    # Coerce all extra values to str for Message(**extra)
-    extra: dict[str, str] = {k: str(v) for k, v in raw_extra_data.items()}
+    try:
+        level = Level(level_str)
+    except ValueError:
+        # Not a level this implementation knows: there is no Message to build
+        # for it, so the batch is consumed and dropped.
+        if wire_batch_logger.isEnabledFor(logging.DEBUG):
+            wire_batch_logger.debug("Dropping log batch with unknown level %r", level_str[:50])
+        return True
+    # Coerce all extra values to str (a value too deep or too long to render drops the extras)
+    extra: dict[str, object] = {}
+    with contextlib.suppress(ValueError, RecursionError):
+        extra = {k: str(v) for k, v in raw_extra_data.items()}
     # Extract server_id from top-level metadata into extra
     server_id_bytes = custom_metadata.get(SERVER_ID_KEY)
     if server_id_bytes is not None:
-        extra["server_id"] = server_id_bytes.decode()
+        extra["server_id"] = server_id_bytes.decode(errors="replace")
     if request_id:
         extra["request_id"] = request_id
-    msg = Message(Level(level_str), message_str, **extra)
+    # Not ``Message(level, text, **extra)``: an extra key named like one of the
+    # constructor's own parameters ("level", "message", "self") would collide.
+    msg = Message(level, message_str)
+    msg.extra = extra or None
     if on_log is not None:
         on_log(msg)
     return True
